@@ -11,7 +11,8 @@ use std::net::{IpAddr, Ipv4Addr, Ipv6Addr, SocketAddr, SocketAddrV4, SocketAddrV
 
 pub fn gen_fam(c: &mut Choices) -> FamId {
     // k256 most often (shrinks towards it), every family represented
-    const W: [FamId; 12] = [
+    const W: [FamId; 13] = [
+        FamId::Mid,
         FamId::Tiny,
         FamId::Wide,
         FamId::K256,
@@ -30,7 +31,7 @@ pub fn gen_fam(c: &mut Choices) -> FamId {
 
 pub fn gen_keys(c: &mut Choices, fam: FamId) -> Vec<Secret> {
     let n = 1 + c.below(3);
-    if fam == FamId::Tiny {
+    if matches!(fam, FamId::Tiny | FamId::Mid) {
         return (0..n).map(|_| Secret(c.arr32())).collect::<Vec<_>>().into_iter().enumerate().map(|(i, mut s)| { s.0[0] ^= i as u8; s }).collect();
     }
     if fam == FamId::Wide {
@@ -197,8 +198,8 @@ pub fn gen_tval(c: &mut Choices, key: &[u8], fam: FamId) -> TVal {
             TVal::BytesList((0..n).map(|_| gen_str_value(c)).collect())
         }
         7 => {
-            // a big value (size failures)
-            let n = c.range(100, 260);
+            // a big value (size failures); rarely far beyond any record size
+            let n = if c.chance(12) { *c.pick(&[65_534usize, 65_536, 70_000, 200_000]) } else { c.range(100, 260) };
             TVal::Bytes(vec![c.u8(); n])
         }
         _ => TVal::Item(gen_item(c, 3)),
@@ -504,6 +505,11 @@ pub fn alphabet(fam: FamId) -> Vec<Op> {
         Op::Insert { key: b"big".to_vec(), val: TVal::Bytes(vec![0x61; 200]), k: 0 }, // oversize
         Op::Insert { key: b"eth2".to_vec(), val: TVal::U64(7), k: 1 },             // other key
         Op::Insert { key: b"x".to_vec(), val: TVal::Raw(vec![0x01, 0x02]), k: 0 }, // Encodable emitting two items
+        // arguments far beyond any record size (64 KiB is where RLP length prefixes grow to 3 bytes)
+        Op::Insert { key: b"huge".to_vec(), val: TVal::Bytes(vec![0x61; 65_530]), k: 0 },
+        Op::RemoveInsert { remove: vec![], insert: vec![(b"huge".to_vec(), vec![0x62; 70_000])], k: 0 },
+        Op::RemoveKey { key: vec![b'k'; 66_000], k: 0 },
+        Op::SetClientInfo { name: "n".repeat(40_000), version: "v".repeat(30_000), build: None, k: 0 },
         Op::InsertRaw { key: b"raw".to_vec(), raw: vec![0xc2, 0x01, 0x02], k: 0 },
         Op::InsertRaw { key: b"raw".to_vec(), raw: vec![0x83, 0x01], k: 0 }, // malformed (truncated)
         Op::InsertRaw { key: b"raw".to_vec(), raw: vec![0x01, 0x02], k: 0 }, // trailing bytes
